@@ -13,6 +13,7 @@ import (
 	"math/rand"
 	"os"
 	"path/filepath"
+	"regexp"
 	"strings"
 	"sync"
 	"time"
@@ -181,7 +182,9 @@ func (e *Env) runLineCase(c lineCase, idx int, seed int64) (*Obs, error) {
 		n, trailing, _ := countJSONValues(r1.Stdout)
 		stdoutOK = n == 1 && !trailing
 	}
-	names := strings.Contains(string(r1.Stderr), fmt.Sprintf("plans.jsonl:%d:", lineNo))
+	// "names the file and line": the log's file name and the line number as a number of its own
+	names := strings.Contains(string(r1.Stderr), "plans.jsonl") &&
+		regexp.MustCompile(fmt.Sprintf(`(^|[^0-9])%d([^0-9]|$)`, lineNo)).MatchString(string(r1.Stderr))
 	rec := map[string]any{"case": c, "exit": r1.Exit, "timeout": r1.TimedOut, "stderr": len(bytes.TrimSpace(r1.Stderr)) > 0,
 		"stdout_ok": stdoutOK, "names_line": names, "same_twice": same, "bytes_unchanged": bytes.Equal(before, after)}
 	o := &Obs{Tag: "e5l", Cmd: Cmd{"name": "filecase", "mode": "json", "case": c}, Exit: r1.Exit,
